@@ -323,6 +323,9 @@ def _classify(res, text, meta, js, diags, err, rc):
             tags |= _tags_for_line(lines, clause_span["line_start"], clause_span.get("line_end"))
         if kind == "overflow":
             tags |= set(res.unit.arith_properties)
+        if kind == "precondition" and tags & {"C02", "C17"}:
+            # arithmetic units: a bound or reason that is not implied because a computation wrapped is C16's subject too
+            tags |= set(res.unit.cfg.get("soundness_also", []))
         if kind in ("assert", "invariant", "decreases") and call:
             tags |= _tags_for_line(lines, call["line_start"])
         if not tags:
